@@ -63,6 +63,19 @@ CHECKS.update({
         note=SIM_NOTE),
 })
 
+CHECKS.update({
+    "C10": dict(
+        engine="E3 net", category="fault_enumeration", design_ref="DESIGN.md section 5 C10",
+        technique="exhaustive enumeration of per-device AL-state-machine scripts (accept after k polls, refuse, stall, fall back) x transitions x group splits on the segment simulator, plus every vector of reported states for the summary predicates; each case runs the real transition / tx_rx code",
+        text="A transition returns Ok only if every member reported the target state when checked and no member script keeps it out; refusing/stalling members give an error within the transition timeout (relative to the healthy call); state requests reach every member and no non-member; the cycle's state list and all_op/single-state/is-in-state summaries equal reference predicates over the reported vector.",
+        note=SIM_NOTE),
+    "C11": dict(
+        engine="E3 net", category="fault_enumeration", design_ref="DESIGN.md section 5 C11",
+        technique="exhaustive fault enumeration on the segment simulator: expected x serviced working counters for the builder methods; device drop-out after every datagram position and counter rewrite at every datagram position of every listed entry point",
+        text="Builder methods return data iff expected == received counter and otherwise WorkingCounter{expected, received} with the true numbers; no listed operation returns Ok for a device that stopped answering at any point; a wrong counter on the datagram that carries the result is always a WorkingCounter error; no panics.",
+        note=SIM_NOTE),
+})
+
 NOT_YET = {
 }
 
